@@ -518,6 +518,108 @@ theorem calcchain_subset_formulas (cc : List CalcEnt) (sid : Int) (cell : Str) :
     have := (List.mem_filter.mp hc).2
     simp [he.1, he.2] at this
 
+/-- `calcchain_follows_adjust`: InsertRows / InsertCols / RemoveRow / RemoveCol keep the calcChain
+inside the formula cells: if every chain entry of the edited sheet names a formula cell, then
+after adjustCalcChain every remaining entry of that sheet names the position that formula cell
+has moved to (`shiftCellPos`, the grid shift), and entries of other sheets are unchanged. Holds
+because the comparison of adjustCalcChain is inclusive (regenerated fact) — the seeded change
+C05d/1 (`<` for `<=`) flips the fact and breaks this theorem. -/
+theorem calcchain_follows_adjust (dir : Dir) (num : Nat) (offset : Int) (sid : Int)
+    (cc : List CalcPos) (formulas : List (Nat × Nat))
+    (h : ∀ e ∈ cc, e.i = sid → (e.col, e.row) ∈ formulas) :
+    ∀ e' ∈ adjustCalcChain dir num offset sid cc,
+      (e'.i = sid → (e'.col, e'.row) ∈ formulas.filterMap (shiftCellPos dir num offset)) ∧
+      (e'.i ≠ sid → e' ∈ cc) := by
+  have hf : Facts.C05.calcChainShiftInclusive = true := by decide
+  intro e' he'
+  unfold adjustCalcChain at he'
+  obtain ⟨e, he, hm⟩ := List.mem_filterMap.mp he'
+  unfold adjustCalcEntry at hm
+  by_cases hi : e.i = sid
+  · have hmem := h e he hi
+    simp only [hi, bne_self_eq_false, Bool.false_eq_true, if_false, hf, if_true] at hm
+    constructor
+    · intro _
+      rw [List.mem_filterMap]
+      refine ⟨(e.col, e.row), hmem, ?_⟩
+      unfold shiftCellPos
+      cases dir <;> simp only at hm ⊢ <;> split at hm <;> rename_i hhit <;> simp only [hhit, if_true, if_false] <;>
+        (first
+          | (split at hm <;> rename_i hdel <;> simp only [hdel, if_true, if_false] <;>
+              (cases hm <;> simp))
+          | (cases hm <;> simp))
+    · intro hne
+      exfalso
+      apply hne
+      cases dir <;> simp only at hm <;> (repeat' split at hm) <;> (cases hm <;> first | exact hi | rfl)
+  · have hb : (e.i != sid) = true := by simp [hi]
+    simp only [hb, if_true] at hm
+    cases hm
+    exact ⟨fun h' => absurd h' hi, fun _ => he⟩
+
+/-! ## pictures sharing a media part -/
+
+/-- inside one drawing no two image relationships have the same target -/
+def picTargetsOk (own : List Rel) (imgType : Str) : Prop :=
+  ∀ a ∈ own, ∀ b ∈ own, a.type = imgType → b.type = imgType → a.target = b.target → a.id = b.id
+
+/-- `addpic_reuses_relationship`: adding a picture keeps "one image relationship per target"
+inside the drawing (an existing one is reused — regenerated fact; the seeded change C05d/2,
+always addRels, flips the fact and breaks this theorem). -/
+theorem addpic_reuses_relationship (own : List Rel) (imgType target : Str)
+    (hu : uniqPart imgType = none) (hno : maxRelNum own 0 + 1 < 9223372036854775808)
+    (h : picTargetsOk own imgType) : picTargetsOk (addPicRel own imgType target).1 imgType := by
+  have hf : Facts.C05.pictureRelReused = true := by decide
+  unfold addPicRel
+  simp only [hf, if_true]
+  cases hfind : own.find? (fun r => r.type == imgType && r.target == target) with
+  | some r => exact h
+  | none =>
+    simp only
+    rw [addRels_eq own imgType target [] hu hno]
+    have hnone : ∀ x ∈ own, ¬ (x.type = imgType ∧ x.target = target) := by
+      intro x hx hc
+      have := List.find?_eq_none.mp hfind x hx
+      simp [hc.1, hc.2] at this
+    intro a ha b hb hta htb hab
+    simp only [List.mem_append, List.mem_singleton] at ha hb
+    rcases ha with ha | ha <;> rcases hb with hb | hb
+    · exact h a ha b hb hta htb hab
+    · subst hb; exact absurd ⟨hta, hab⟩ (hnone a ha)
+    · subst ha; exact absurd ⟨htb, hab.symm⟩ (hnone b hb)
+    · rw [ha, hb]
+
+/-- `delpic_keeps_referenced_media`: with one image relationship per target inside the drawing
+(the removed id being a picture's image relationship), DeletePicture never removes a media part that a remaining image relationship —
+of this drawing or of any other relationships part — still targets. -/
+theorem delpic_keeps_referenced_media (own others : List Rel) (media : List Str) (imgType rid : Str)
+    (h : picTargetsOk own imgType) (himg : ∀ r ∈ own, r.id = rid → r.type = imgType) :
+    ∀ x ∈ (deletePicRel own others media imgType rid).1 ++ others, x.type = imgType →
+      x.target ∈ media → x.target ∈ (deletePicRel own others media imgType rid).2 := by
+  intro x hx hty hmem
+  unfold deletePicRel at hx ⊢
+  cases hfind : own.find? (fun r => r.id == rid) with
+  | none => simpa [hfind] using hmem
+  | some r =>
+    simp only [hfind] at hx ⊢
+    have hr : r ∈ own := List.mem_of_find?_eq_some hfind
+    have hrid : r.id = rid := eq_of_beq (List.find?_some (p := fun r : Rel => r.id == rid) hfind)
+    by_cases hused : (others.any fun o => o.type == imgType && o.target == r.target) = true
+    · simp only [hused, if_true]; exact hmem
+    · simp only [hused, Bool.false_eq_true, if_false]
+      rw [List.mem_filter]
+      refine ⟨hmem, ?_⟩
+      simp only [bne_iff_ne, ne_eq]
+      intro heq
+      rcases List.mem_append.mp hx with hx | hx
+      · -- a remaining relationship of the drawing with the same target: impossible
+        obtain ⟨hxo, hne⟩ := List.mem_filter.mp hx
+        simp only [bne_iff_ne, ne_eq] at hne
+        exact hne (by rw [h x hxo r hr hty (himg r hr hrid) heq, hrid])
+      · apply hused
+        rw [List.any_eq_true]
+        exact ⟨x, hx, by simp [hty, heq]⟩
+
 /-! ## shared strings -/
 
 /-- every entry of the text ↦ index map points into the item list -/
